@@ -141,6 +141,9 @@ def build_node(
     )
 
     method = created_node.process
+
+    # Keep the template's own annotations: an InputGeneric that was not re-bound here must stay visible to the DAG builder
+    method.__annotations__.update(getattr(process_method, '__annotations__', {}))
     method.__annotations__.update(target_dependencies)
 
     globals()[class_name] = created_node
